@@ -138,19 +138,24 @@ class Run:
         self.perf = {}           # cpu -> bytes
         self.nev = {}            # kind -> count
         self.desc = ""
+        self.raw = {}            # tid -> the bytes of TID.dat (large task files: no Rec objects)
+        self.chunk = None        # size of the task buffers the sender hands to write_buffer (None: drawn by the caller)
+        self.big = False
 
     def used_cpus(self):
         return sorted(c for c, b in self.perf.items() if b)
 
     def summary(self):
         return {"idx": self.idx, "nr_cpu": self.nr_cpu, "cpus_with_events": self.used_cpus(),
-                "tasks": [(t, p, len(r)) for t, p, r in self.tasks], "perf_events": self.nev, "desc": self.desc}
+                "tasks": [(t, p, len(self.raw[t]) // 16 if t in self.raw else len(r)) for t, p, r in self.tasks],
+                "task_file_bytes": {t: len(b) for t, b in self.raw.items()}, "task_buffer_bytes": self.chunk,
+                "perf_events": self.nev, "desc": self.desc}
 
     def write_local(self, d, empty_files=True):
         syms = [(0x100 * (i + 1), 0x80, n) for i, n in enumerate(NAMES)]
         tasks = [DD.Task(tid, recs, pid=pid) for tid, pid, recs in self.tasks]
         shutil.rmtree(d, ignore_errors=True)
-        DD.DataDir(syms, tasks, feat_extra=PERF_FEAT).write(d)
+        DD.DataDir(syms, tasks, feat_extra=PERF_FEAT).write(d, overrides={"%d.dat" % t: b for t, b in self.raw.items()} or None)
         for c in range(self.nr_cpu):
             b = self.perf.get(c, b"")
             if b or empty_files:
@@ -237,6 +242,67 @@ def gen_run(rng, idx, force_cpus=None):
     return r
 
 
+# sizes: a task buffer (one flush of a shared-memory buffer, `record -b SIZE`) is sent as it is, whatever its size
+MIB = 1 << 20
+BIG_FIXED = [      # (bytes of the task file, bytes of one task buffer)
+    (1 << 16, MIB),                       # one buffer of exactly 2^16
+    (MIB, MIB),                           # one buffer of exactly 2^20
+    (MIB + 16, 2 * MIB),                  # one buffer just above 2^20
+    (2 * MIB + 512 * 1024 + 32, 8 * MIB),    # one buffer of several MiB (-b 8M)
+]
+BIG_FILE = [MIB - 16, MIB + 16, MIB + 4096, 2 * MIB, 2 * MIB + 16, 3 * MIB - 16, 3 * MIB + 48, 4 * MIB + 160, 5 * MIB]
+BIG_BUF = [1 << 16, (1 << 16) + 8, MIB - 8, MIB - 4, MIB, MIB + 4, MIB + 8, MIB + 16, 2 * MIB, 3 * MIB + 24, 8 * MIB]
+
+
+def gen_big_run(rng, idx, nbytes, chunk):
+    """one task whose TID.dat has exactly `nbytes` bytes (16-byte records, properly nested calls, every record
+    different: times strictly increase), a second small task, events on one cpu; sent in task buffers of `chunk`"""
+    r = Run(idx)
+    r.big, r.chunk = True, chunk
+    r.nr_cpu = rng.choice([2, 4, 12])
+    cpu = rng.randrange(r.nr_cpu)
+    base = rng.choice([100, 31000, 4194000])
+    t = 10 ** 9 + rng.randrange(1000)
+    A = lambda i: DD.BASE + 0x100 * (i + 1)      # noqa
+    nrec = nbytes // 16
+    out = []
+    stack = []
+    pk = struct.Struct("<QQ").pack
+    perf = [perf_comm(base, base, "prog", t, True)]
+    choices = [rng.randrange(1 << 30) for _ in range(257)]
+    for k in range(nrec):
+        t += 3 + (choices[k % 257] & 0x3f)
+        left = nrec - k
+        c = choices[(k * 7 + (k >> 8)) % 257]
+        if stack and (left <= len(stack) or len(stack) >= 6 or (c & 3) == 0):
+            s = stack.pop()
+            w = 1 | (5 << 3) | (len(stack) << 6) | (A(s) << 16)
+        else:
+            s = 0 if not stack and not out else 1 + (c >> 2) % (len(NAMES) - 1)
+            w = 0 | (5 << 3) | (len(stack) << 6) | (A(s) << 16)
+            stack.append(s)
+        out.append(pk(t, w))
+    raw = b"".join(out)
+    assert len(raw) == nrec * 16
+    t2 = 10 ** 9 + 2000
+    small = [DD.Rec(t2, "E", 0, A(3)), DD.Rec(t2 + 50, "E", 1, A(4)), DD.Rec(t2 + 90, "X", 1, A(4)), DD.Rec(t2 + 200, "X", 0, A(3))]
+    perf.append(perf_task(7, base, base, base + 1, base, t2 - 10))
+    perf.append(perf_task(4, base, base, base, base, t + 9))
+    r.tasks = [(base, base, []), (base + 1, base, small)]
+    r.raw = {base: raw}
+    r.perf = {cpu: b"".join(perf)}
+    r.nev = {"comm": 1, "fork": 1, "exit": 1}
+    r.desc = "task file of %d bytes sent in task buffers of %d bytes" % (len(raw), chunk)
+    return r
+
+
+def gen_big_runs(rng, idx0, extra):
+    shapes = list(BIG_FIXED)
+    for _ in range(extra):
+        shapes.append((rng.choice(BIG_FILE), rng.choice(BIG_BUF)))
+    return [gen_big_run(rng, idx0 + i, n, c) for i, (n, c) in enumerate(shapes)]
+
+
 # ---------------------------------------------------------------------------------------------
 def read_dir(d):
     out = {}
@@ -283,7 +349,12 @@ def diff_files(got, want):
         if n not in want:
             return "unexpected file %s in the received directory" % n
         if got[n] != want[n]:
-            return "file %s differs: %d bytes received, %d bytes locally" % (n, len(got[n] or b""), len(want[n] or b""))
+            a, b = got[n] or b"", want[n] or b""
+            k = next((i for i in range(0, min(len(a), len(b)), 4096) if a[i:i + 4096] != b[i:i + 4096]), None)
+            if k is not None:
+                k = next(i for i in range(k, min(len(a), len(b))) if a[i] != b[i])
+            return "file %s differs: %d bytes received, %d bytes locally; first different byte at offset %s" % (
+                n, len(a), len(b), k if k is not None else min(len(a), len(b)))
     return None
 
 
@@ -328,15 +399,15 @@ def run_cmd(uftrace, cmd, d, args, timeout=30):
         return -999, b"", "TIMEOUT"
 
 
-def outputs(uftrace, d):
+def outputs(uftrace, d, cmds=None):
     for n in ("info",):
         try:
             os.utime(os.path.join(d, n), (T_INFO, T_INFO))     # dump --chrome prints the mtime of the info file
         except OSError:
             pass
     out = {}
-    for cmd, args in CMDS:
-        rc, o, e = run_cmd(uftrace, cmd, d, args)
+    for cmd, args in (cmds or CMDS):
+        rc, o, e = run_cmd(uftrace, cmd, d, args, timeout=(60 if cmds else 30))
         out[" ".join([cmd] + args)] = (rc, o.replace(d.encode(), b"<DIR>"), e.replace(d, "<DIR>"))
     return out
 
@@ -380,18 +451,25 @@ def first_diff(a, b):
 # ---------------------------------------------------------------------------------------------
 # real recordings
 PROG_C = r"""
-/* one task that blocks for a while inside a traced function (and a second one in a thread when THREADS) */
+/* one task that blocks for a while inside a traced function; argument t...: a second one in a thread;
+ * argument bN: N thousand calls of step() (-> compute() two times out of three) first, about 53 bytes of records
+ * each: N = 70 gives 3.7 MB, one task buffer with `record -b 8M` */
 #include <pthread.h>
+#include <stdlib.h>
 #include <unistd.h>
 static volatile int sink;
 __attribute__((noinline)) void wait_for_io(int us) { usleep(us); }
 __attribute__((noinline)) void compute(int n) { int i; for (i = 0; i < n; i++) sink += i; }
 __attribute__((noinline)) void *worker(void *arg) { compute(10); wait_for_io(20000); compute(20); return arg; }
+__attribute__((noinline)) void step(int i) { if (i % 3) compute(1); if (i % 1000 == 0) compute(2); }
+__attribute__((noinline)) void burst(int n) { int i; for (i = 0; i < n; i++) step(i); }
 int main(int argc, char **argv)
 {
+	if (argc > 1 && argv[1][0] == 'b')
+		burst(atoi(argv[1] + 1) * 1000);
 	compute(1);
 	wait_for_io(30000);
-	if (argc > 1) {
+	if (argc > 1 && argv[1][0] == 't') {
 		pthread_t th;
 		pthread_create(&th, NULL, worker, NULL);
 		pthread_join(th, NULL);
